@@ -230,6 +230,42 @@ def r3(cx, rec):
                      '%s calls %s with with_end=%s: %s' % (g.name, f.name, show(a),
                                                           'a stray "e" at the top level is accepted as the end of input' if top else 'a nested container is not required to end with "e"'))
     scan_rules(cx, rec)
+    drained_then_read(cx, rec)
+
+
+def drained_then_read(cx, rec):
+    """`a.append(&mut b)` empties b: nothing afterwards may use b's length or content (an observation made with it would always
+    see 0 / nothing -- e.g. the end-of-input lookup placed after the append instead of before)"""
+    F = cx.F
+    n = 0
+    for f in F.user_fns():
+        if not f.path.startswith('bcodec::') or f.kind == 'Closure':
+            continue
+        for bb in mirq.real_calls(f):
+            e = f.expr_call(bb)
+            if e[4].get('name') != 'append' or len(e[2]) != 2:
+                continue
+            src = e[2][1]
+            idn = mirq._ident(src)
+            if not idn or src[0] not in ('var', 'mvar'):
+                continue
+            n += 1
+            after = set()
+            for nb in f.succs(bb):
+                after |= f.reach_from(nb)
+            late = []
+            for b2 in mirq.real_calls(f):
+                if b2 in after and b2 != bb:
+                    for x in walk(f.expr_call(b2), inl=False):
+                        # the read itself (not a value computed earlier and only used here) happens after the append
+                        if x[0] == 'call' and x[4].get('name') in ('len', 'is_empty', 'iter', 'as_slice', 'clone', 'first', 'last', 'get') and x[2] and \
+                                mirq._ident(x[2][0]) == idn and x[3] in after and x[3] != bb:
+                            late.append(x[3])
+            rec.site(f, bb, 'append drains %s; later reads of it: %d' % (show(src)[:30], len(set(late))))
+            for b2 in sorted(set(late))[:1]:
+                rec.violation('read-after-drain/' + f.path, f, b2,
+                              '%s is read after `append` moved its elements away: the value observed is always empty' % show(src)[:30])
+    rec.site('bcodec', None, 'draining appends examined: %d' % n)
 
 
 def scan_rules(cx, rec):
